@@ -8,6 +8,7 @@ import MediaSan.Lemmas.RawSim
 import MediaSan.Lemmas.ScanReads
 import MediaSan.Lemmas.WebpMeter
 import MediaSan.Lemmas.CodeSize
+import MediaSan.Lemmas.BufBound
 namespace MediaSan.Props.C10
 open MediaSan
 
@@ -152,6 +153,22 @@ theorem C10_webp_group_size (cfg : Vp8l.LCfg) (cache : Option Nat)
 theorem C10_webp_clc_size (cfg : Vp8l.LCfg) :
     Vp8l.BSafe (Vp8l.readCodeLengthCode cfg) (fun c => c.tree.nodes + 1 ≤ 2 * 19) :=
   Vp8l.readCodeLengthCode_sized cfg
+
+/-- ... and the bit buffer itself never holds more than its capacity (4096 bytes in the code): `fill_buf` tops the kept
+    bytes up to `cap`, and `read`, `read_huffman` and the guarded refill of the sub-image loop keep `|buf| ≤ cap` - the
+    invariant holds initially (`BitBuf.new`: an empty buffer) and after every operation of the buffered validator
+    (Vp8l/BufValidator.lean).  Buffer ≤ cap bytes, one group ≤ 6272 trie nodes, one code-length code ≤ 37: that is
+    everything the validator model holds, whatever the chunk declares. -/
+theorem C10_webp_bitbuffer_bounded (s : Vp8l.BitBuf) (h : s.buf.length ≤ s.cap) :
+    (s.fill.buf.length ≤ s.fill.cap ∧ s.fill.cap = s.cap) ∧
+    (∀ r, (s.guardedFill r).buf.length ≤ (s.guardedFill r).cap ∧ (s.guardedFill r).cap = s.cap) ∧
+    (∀ n v s', s.read n = some (v, s') → s'.buf.length ≤ s'.cap ∧ s'.cap = s.cap) ∧
+    (∀ c v s', s.readSym c = some (v, s') → s'.buf.length ≤ s'.cap ∧ s'.cap = s.cap) :=
+  ⟨Vp8l.fill_buf_le s h, fun r => Vp8l.guardedFill_buf_le s r h, fun n v s' hr => Vp8l.read_buf_le s s' n v h hr,
+   fun c v s' hr => Vp8l.readSym_buf_le s s' c v h hr⟩
+
+example (cap : Nat) (input : Bytes) : (Vp8l.BitBuf.new cap input).buf.length ≤ (Vp8l.BitBuf.new cap input).cap := by
+  simp [Vp8l.BitBuf.new]
 
 -- Non-vacuity: a two-symbol code is built (3 nodes), and a group is really returned on a concrete payload
 example : (match Vp8l.newCode [(0, 1), (1, 1)] with | .ok c => c.tree.nodes | .error _ => 0) = 3 := by decide
